@@ -16,7 +16,10 @@ TECHNIQUE = "reference-model monitor (state-set tracking) over exhaustively enum
 RULE = ("every history of length<=L (quick 4; thorough 6 for DictLoader, 5 for the others) over the "
         "alphabet {get a|b|c, select [a,b]|[b,a], modify a|b (toggle between 2 source versions), "
         "delete a|b, add a|b, swap env.loader to a second loader of the same kind (auto_reload "
-        "only)} whose last op is a get/select (a trailing mutation is unobservable), executed for "
+        "only)} whose last op is a get/select (a trailing mutation is unobservable) and that "
+        "contain no mutation that does nothing (add of an existing / delete or modify of a deleted "
+        "name: identical to the shorter history); length-6 histories only up to renaming a<->b; "
+        "executed for "
         "cache_size in {0,1,2,-1} x auto_reload in {on,off} x {DictLoader, FunctionLoader returning "
         "str, FunctionLoader returning (src,None,uptodate), FileSystemLoader on a temp dir with "
         "os.utime-forced unique mtimes}; per lookup the harness observes the names passed to "
@@ -35,19 +38,19 @@ ASSUMPTIONS = [
     "non-reloading environment does after its loader attribute is replaced)",
 ]
 NSHARDS = {"quick": 16, "thorough": 16}
-BUDGET_S = {"quick": 30, "thorough": 700}
+BUDGET_S = {"quick": 45, "thorough": 700}
 FLOORS = {
-    "quick": {"evaluations": 65000, "distinct": 2300,
-              "counters": {"lookups": 150000, "loader_calls": 130000, "served_from_cache": 23000,
-                           "reload_of_cached": 900, "notfound": 8000, "evicting_loads": 14000,
-                           "exec_dict": 16000, "exec_func": 16000, "exec_funcup": 16000,
-                           "exec_fs": 16000}},
-    "thorough": {"evaluations": 1500000, "distinct": 20000,
-                 "counters": {"lookups": 4000000, "loader_calls": 2000000,
-                              "served_from_cache": 400000, "reload_of_cached": 100000,
-                              "notfound": 250000, "evicting_loads": 80000,
-                              "exec_dict": 800000, "exec_func": 100000, "exec_funcup": 100000,
-                              "exec_fs": 100000}},
+    "quick": {"evaluations": 36000, "distinct": 1300,
+              "counters": {"lookups": 90000, "loader_calls": 80000, "served_from_cache": 16000,
+                           "reload_of_cached": 750, "notfound": 5000, "evicting_loads": 9500,
+                           "exec_dict": 9000, "exec_func": 9000, "exec_funcup": 9000,
+                           "exec_fs": 9000}},
+    "thorough": {"evaluations": 650000, "distinct": 12000,
+                 "counters": {"lookups": 1700000, "loader_calls": 1400000,
+                              "served_from_cache": 280000, "reload_of_cached": 13000,
+                              "notfound": 90000, "evicting_loads": 170000,
+                              "exec_dict": 400000, "exec_func": 80000, "exec_funcup": 80000,
+                              "exec_fs": 80000, "histories_len6": 50000}},
 }
 
 NAMES = ("a", "b", "c")
@@ -63,11 +66,18 @@ def text_of(lid, name, ver):
     return f"{name}{lid}v{ver}"
 
 
+def scratch_dir(prefix):
+    """tempfile.mkdtemp, on tmpfs when there is one (the disk under /tmp is slow and shared)."""
+    shm = "/dev/shm"
+    base = shm if os.path.isdir(shm) and os.access(shm, os.W_OK | os.X_OK) else None
+    return tempfile.mkdtemp(prefix=prefix, dir=base)
+
+
 class Kit:
     """Per-shard scratch: two directories for the FileSystemLoader worlds."""
 
     def __init__(self):
-        self.root = tempfile.mkdtemp(prefix="vt_c25_")
+        self.root = scratch_dir("vt_c25_")
         self.dirs = [os.path.join(self.root, "w0"), os.path.join(self.root, "w1")]
         for d in self.dirs:
             os.mkdir(d)
@@ -271,6 +281,35 @@ def classify(obs, pred, tag, step, op, hist, world, names):
     return (f"{kind}:{tag}", what)
 
 
+MIRROR = {"ga": "gb", "gb": "ga", "gc": "gc", "sab": "sba", "sba": "sab", "ma": "mb", "mb": "ma",
+          "da": "db", "db": "da", "na": "nb", "nb": "na", "w": "w"}
+
+
+def has_noop(hist):
+    """True if some mutation of the history does nothing at all (add of an
+    existing name, delete/modify of a deleted one): the execution is then
+    identical to that of the shorter history without it, which is enumerated
+    anyway."""
+    present = [{"a": True, "b": True}, {"a": True, "b": True}]
+    act = 0
+    for op in hist:
+        c = op[0]
+        if c == "w":
+            act = 1 - act
+        elif c == "n":
+            if present[act][op[1]]:
+                return True
+            present[act][op[1]] = True
+        elif c == "d":
+            if not present[act][op[1]]:
+                return True
+            present[act][op[1]] = False
+        elif c == "m":
+            if not present[act][op[1]]:
+                return True
+    return False
+
+
 def histories(maxlen):
     idx = 0
     for length in range(1, maxlen + 1):
@@ -298,6 +337,10 @@ def run(ctx):
             for idx, hist in histories(hi):
                 if len(hist) < lo or not ctx.mine(idx):
                     continue
+                if has_noop(hist):
+                    continue
+                if len(hist) >= 6 and tuple(MIRROR[o] for o in hist) < hist:
+                    continue        # a<->b renaming of an enumerated history
                 has_swap = "w" in hist
                 for kind in kinds:
                     for size in SIZES:
